@@ -1111,6 +1111,9 @@ type env struct {
 	// slices: the production stack end to end (one per engine): endpoint A refuses connections, endpoint B records what
 	// it is sent; every request is a failover, what B receives is "the request Olla sends upstream"
 	slices []*slice
+	// sized: translators by configured max_message_size; sizedSlices: production stacks configured with that limit
+	sized       map[int64]*anthropic.Translator
+	sizedSlices map[int64]*slice
 }
 
 type slice struct {
@@ -1118,7 +1121,10 @@ type slice struct {
 	a, b *stack.Backend
 }
 
-func newSlice(engine string) *slice {
+func newSlice(engine string) *slice { return newSliceLimit(engine, 10<<20) }
+
+// newSliceLimit: the same stack with translators.anthropic.max_message_size set to limit.
+func newSliceLimit(engine string, limit int64) *slice {
 	a, b := stack.NewBackend("A"), stack.NewBackend("B")
 	b.KeepBodies = true
 	b.SetScript(func(_ int, sn *stack.Seen) stack.Behaviour { return anth.OKAnswer("B", sn) })
@@ -1126,7 +1132,7 @@ func newSlice(engine string) *slice {
 	s, err := stack.Start(stack.Opts{Vary: stack.VaryFor("c12.slice", engine), Engine: engine, Balancer: "priority", EPs: []stack.EP{{Name: "A", Type: "openai", Priority: 300, Backend: a}, {Name: "B", Type: "openai", Priority: 100, Backend: b}},
 		Mutate: func(cfg *config.Config) {
 			cfg.Translators.Anthropic.Enabled = true
-			cfg.Translators.Anthropic.MaxMessageSize = 10 << 20
+			cfg.Translators.Anthropic.MaxMessageSize = limit
 		}})
 	if err != nil {
 		a.Close()
@@ -1158,8 +1164,13 @@ func (e *env) callStack(sl *slice, model, body string) map[string]any {
 		time.Sleep(time.Millisecond)
 	}
 	sl.b.Taken()
-	r := stack.Do(sl.s.Addr, stack.Request("POST", "/olla/anthropic/v1/messages", sl.s.Addr, [][2]string{{"Content-Type", "application/json"}, {"anthropic-version", "2023-06-01"}}, []byte(body), false), 4*time.Second)
+	wait := 4 * time.Second
+	if len(body) > 1<<16 {
+		wait = 20 * time.Second
+	}
+	r := stack.Do(sl.s.Addr, stack.Request("POST", "/olla/anthropic/v1/messages", sl.s.Addr, [][2]string{{"Content-Type", "application/json"}, {"anthropic-version", "2023-06-01"}}, []byte(body), false), wait)
 	seen := sl.b.Taken()
+	impl["status"], impl["neterr"] = r.Status, r.Err
 	if len(seen) != 1 {
 		impl["ok"], impl["err"] = false, fmt.Sprintf("stack: client status %d err '%s', the working backend saw %d request(s)", r.Status, r.Err, len(seen))
 		return impl
@@ -1183,7 +1194,6 @@ func (e *env) callStack(sl *slice, model, body string) map[string]any {
 }
 
 func (e *env) call(body string) (out map[string]any) {
-	impl := map[string]any{}
 	e.n++
 	tr := e.tr
 	insp := e.n%3 == 0
@@ -1193,6 +1203,12 @@ func (e *env) call(body string) (out map[string]any) {
 	if insp && e.tri != nil {
 		tr = e.tri
 	}
+	return e.callTr(tr, insp, body)
+}
+
+// callTr runs TransformRequest of the given translator on the body and reads back what it produced.
+func (e *env) callTr(tr *anthropic.Translator, insp bool, body string) (out map[string]any) {
+	impl := map[string]any{}
 	impl["inspector"] = insp
 	func() {
 		defer func() {
@@ -1381,7 +1397,14 @@ func main() {
 				e.forceInspector = &v
 			}
 		}
-		m := map[string]any{"kind": fc["kind"], "class": "replay", "req": fc["req"], "why": fc["why"], "expect_error": fc["expect_error"], "body": body, "impl": e.call(body)}
+		var impl map[string]any
+		if sz, _ := fc["sized"].(map[string]any); sz != nil { // a sized request: the translator with that max_message_size
+			lim, _ := sz["limit"].(float64)
+			impl = e.callTr(e.sizedTr(int64(lim)), false, body)
+		} else {
+			impl = e.call(body)
+		}
+		m := map[string]any{"kind": fc["kind"], "class": "replay", "req": fc["req"], "why": fc["why"], "expect_error": fc["expect_error"], "body": body, "impl": impl, "sized": fc["sized"]}
 		e.c.Emit(m)
 		e.c.Close(map[string]any{"replay": p})
 		return
@@ -1426,6 +1449,21 @@ func main() {
 	for i := 0; i < n; i++ {
 		e.reqCase("grammar", genReq(r))
 	}
+
+	// ---- requests of a chosen size relative to max_message_size; numeric dimensions at their edges
+	e.sizedSlices = map[int64]*slice{}
+	for i, lim := range []int64{8192, 65536} {
+		if sl := newSliceLimit([]string{"sherpa", "olla"}[(i+int(vlib.Seed()%2))%2], lim); sl != nil {
+			e.sizedSlices[lim] = sl
+			defer sl.close()
+		}
+	}
+	ns, nb := 240, 200
+	if tier == "thorough" {
+		ns, nb = 960, 3000
+	}
+	e.sizedCases(tier, ns)
+	e.boundaryCases(tier, nb)
 
 	// ---- malformed stream
 	good := func() string {
